@@ -70,6 +70,21 @@ CHECKS = {
    technique="TLA+ specification of check_for_bitflips / try_bit_flips on a bit-set address representation (BitFlip.tla) with the C19 predicate checked by TLC; one generated minidump per case processed by the real process_minidump and compared as a set",
    text="TLC enumerates CPU x access kind x examined value x memory map for three scenarios (crash address, non-canonical address recovered from the crashing instruction, null pointer plus offset) and checks on the specification that every candidate is exactly one bit away inside the platform's range and null or in a region possibly permitting the access, and that nothing is reported for 32-bit / ARM64 / accessible / null-plus-offset cases. Each case becomes a real dump (exception record, memory-info regions incl. one ending at 2^64-1, exception context with the examined value in rbx and the bytes of `mov rax,[rbx]` at rip) and the real possible_bit_flips must equal the specified set, with all confidences in [0,1].",
    note="Trusted: TLC, BitFlip.tla, the frozen dump writer + dumpgen.rs, replay_bitflip.rs. The float confidence formula itself is not modelled; one instruction form only; Linux maps as the memory map are not exercised here."),
+ "C03": dict(
+   level="exploration", design_ref="DESIGN.md section 5 'C01 C02 C03'",
+   technique="model-structured exploration: inputs generated from the TLA+ specifications' case structure (Processor.tla dumps, walker / CFI / STACK WIN rule shapes, corrupt symbol text) plus seeded corruption; the totality monitor is TLA+ (Trace_Process.tla) evaluated by TLC on every recorded run of the real process_minidump_with_options under the three option sets",
+   text="Quantifies over byte strings, which no state machine enumerates; the specification contributes structure and the verdict. Each run is recorded with panic capture, a symbol provider that cuts (and reports) an unbounded walk, the per-thread frame count against the stack memory the walk used, rendering of text / brief / JSON, and wall time; TLC judges ok-or-error, no panic, frame bound, renders, time budget.",
+   note="Exploration only: generated and corrupted dumps are sampled. The bound of C03 is also an invariant of WalkerAmd64.tla (checked exhaustively for the amd64 model in C05). Three fix: commits came out of this check (unbounded CFI walk, /proc limits panic) and C13 (limits order)."),
+ "C13": dict(
+   level="model_checking", design_ref="DESIGN.md section 5 'C13'",
+   technique="TLA+ model of the join of per-thread walks over a shared symbol cache with explicit nondeterministic completion order and hash-iteration points (Confluence.tla; three named bug variants must violate Confluent); real runs of each corpus item under different executors, supplier delay schedules, OS threads and hash seeds compared byte for byte, judged by TLC (Trace_Process.tla)",
+   text="TLC proves on the model that the report is a function of the inputs for every completion order, and that collecting in completion order, snapshotting statistics early, or emitting a hash-ordered collection each break it. The real pipeline is run 8 times per item in one process (plain, three per-module supplier delay schedules, multi-thread tokio twice, a fresh OS thread) and the bytes of print_json, print and print_brief must be identical; items include modules sharing one debug identity whose look-up order depends on the schedule, /proc limits with many rows, aliasing CFI rule names and unknown-width CPUs after 32-bit ones.",
+   note="Trusted: TLC, Confluence.tla / SymbolCache.tla, record_process.rs. Schedules are those the delayed supplier produces (0..3 polls per module) plus sampled tokio thread interleavings, not all interleavings of the real executor."),
+ "C15": dict(
+   level="exploration", design_ref="DESIGN.md section 5 'C15'",
+   technique="TLA+ statement of the documented JSON schema and of the cross-field consistency rules (Trace_Report.tla, hex strings parsed and subtracted on limbs) evaluated by TLC on every report recorded from the real print_json; lexical validity by from_utf8 + serde_json",
+   text="No state space: the specification is a library of predicates (Schema, HexW, Counts, Offsets, CrashingThreadCopy, ModulesMirror) that TLC evaluates on the projected JSON of every report the corpus and the Processor.tla cases produce, with the library's own module list passed alongside for the mirror check.",
+   note="Trusted: TLC, Trace_Report.tla (transcription of json-schema.md), the JSON projection in record_process.rs, serde_json for lexical validity. Sampled inputs; function_offset is only bounded by module_offset."),
 }
 
 NA_DEFAULT = "check not built yet (work in progress; DESIGN.md section 5 has the planned specification)"
